@@ -213,6 +213,9 @@ def method_set(tier):
     # single-variant enum payloads next to arms narrower than, as wide as and wider than the enum
     rshapes += [A.EN1, A.NullableRet(A.EN1), A.Result(A.Unit(), A.EN1), A.Result(A.Prim("u8"), A.EN1), A.Result(A.EN1, A.Prim("u8")), A.Result(A.EN1, A.Unit()),
                 A.Result(A.Prim("i64"), A.EN1)]
+    # an out-struct as the payload of a Result / Option (it is a sized payload like any other struct)
+    outst = next(s_ for s_ in structs if s_.out)
+    rshapes += [A.Result(outst, A.Prim("u8")), A.Result(outst, A.Unit()), A.NullableRet(outst), A.Result(A.Prim("u8"), outst), A.Result(A.Unit(), outst)]
     for t in rshapes:
         add("R", [], t)
     # a parameter and a return value together (register / sret interplay)
@@ -287,7 +290,7 @@ def method_set(tier):
             a += "#[diplomat::attr(kotlin, disable)] "  # kotlin requires the `error` attribute on custom error types
         m["attrs"] = a
     types = dict(enums=decl_enums, structs=structs, owners=owners,
-                 owner_attrs={"TNs": '    #[diplomat::attr(cpp, namespace = "nsx")]\n    #[diplomat::attr(cpp, rename = "RenT")]\n'},
+                 owner_attrs={"TNs": '    #[diplomat::attr(cpp, namespace = "nsx")]\n    #[diplomat::attr(cpp, rename = "RenT")]\n    #[diplomat::abi_rename = "ren_{0}"]\n'},
                  cpp_owner={"TNs": "nsx::RenT"})
     return types, methods
 
